@@ -128,6 +128,20 @@ func (f *FieldCopyFromGenerator) errAttrConversionFailure(path string, typ strin
 
 // nextField reads current field value from Terraform object and asserts it's type against expected
 func (f *FieldCopyFromGenerator) nextField(g func(g *j.Group)) *j.Statement {
+	if f.ParentIsOptionalEmbed && f.Kind != PrimitiveKind {
+		// The field is promoted from a nullable embedded message, which was reset above and can not be
+		// written through while it is nil: create it as soon as the field has a value
+		body := g
+		g = func(g *j.Group) {
+			g.If(j.Id("!v.Null && !v.Unknown")).BlockFunc(func(g *j.Group) {
+				g.If(j.Id("obj." + f.ParentIsOptionalEmbedFieldName).Op("==").Nil()).Block(
+					j.Id("obj." + f.ParentIsOptionalEmbedFieldName).Op("=").Id("&" + f.ParentIsOptionalEmbedFullType + "{}"),
+				)
+				body(g)
+			})
+		}
+	}
+
 	return j.Block(
 		// a, ok := ft.Attrs["key"]
 		j.List(j.Id("a"), j.Id("ok")).Op(":=").Id("tf.Attrs").Index(j.Lit(f.NameSnake)),
